@@ -129,6 +129,30 @@ pub fn verifier_case(c: &VerifierCase, obs: &mut Obs) -> Result<(), Fail> {
     Ok(())
 }
 
+/// Fuzz entry: any byte string offered as a certificate to all three verifiers.
+pub fn fuzz_cert(der: &[u8]) -> Result<(), Fail> {
+    let pinned = peer_id_of_seed(&key_seed(1000));
+    for verifier in 0..3u8 {
+        check_cert(der, verifier, pinned, &[], &|| format!("fuzzed certificate of {} bytes", der.len()))?;
+    }
+    Ok(())
+}
+
+pub fn fuzz_cert_seeds() -> Vec<Vec<u8>> {
+    let names = vec![NAME.to_string()];
+    let v = key_seed(1000);
+    let a = key_seed(2000);
+    vec![
+        adv::self_signed(&v, &names, Validity::Valid),
+        adv::self_signed(&a, &names, Validity::Valid),
+        adv::signed_by_other(&v, &a, &names),
+        adv::spki_spliced_resigned(&adv::ed_public(&v), &a, &names),
+        adv::ecdsa_self_signed(&names).0,
+        adv::self_signed(&v, &names, Validity::Expired),
+        adv::self_signed(&v, &["othernet".to_string()], Validity::Valid),
+    ]
+}
+
 pub struct Verifiers;
 impl Part for Verifiers {
     type Case = VerifierCase;
